@@ -3,5 +3,6 @@ CONSTANTS
   MaxLen = 10
   BackslashSep = FALSE
   RandMax = 24
+  PadMax = 6
 INIT GenInit
 NEXT GenNext
